@@ -137,13 +137,25 @@ def grid_of(case):
     return g          # microseconds, strictly increasing (gaps > 0)
 
 
-def build(case, make_env=True):
+CHAIN_CLASSES = {"ES": ES}
+
+
+def make_any_contract(spec, i):
+    if spec["kind"] == "chain":
+        from tradingenv import contracts as C
+        cls = getattr(C, spec["cls"])
+        chain = FutureChain(cls, spec["start"], spec["end"], month=spec.get("month", 0))
+        return chain, float(chain.multiplier), float(chain.margin_requirement), True
+    return B.make_contract(spec, i)
+
+
+def build(case, make_env=True, stream_override=None):
     b = Built()
     b.case = case
     b.grid = grid_of(case)
     specs = case["contracts"]
     b.n = len(specs)
-    made = [B.make_contract(s, i) for i, s in enumerate(specs)]
+    made = [make_any_contract(s, i) for i, s in enumerate(specs)]
     b.contracts = [m[0] for m in made]
     b.mult = [m[1] for m in made]
     b.margin = [m[2] for m in made]
@@ -157,7 +169,15 @@ def build(case, make_env=True):
     for gi, row in enumerate(case["bars"]):
         for ci, (mv, sp) in enumerate(row):
             mids[ci] = min(max(mids[ci] * mv, 1e-3), 1e7)
-            stream.append((b.grid[gi], "Q", (ci, mids[ci] * (1 - sp / 2), mids[ci] * (1 + sp / 2))))
+            if specs[ci]["kind"] == "chain":
+                # one quote per listed contract that has not expired yet (term structure: +0.5% per contract)
+                now = dt(b.grid[gi])
+                for ui, fut in enumerate(b.contracts[ci].contracts):
+                    if fut.expiry > now:
+                        mid = mids[ci] * (1 + 0.005 * ui)
+                        stream.append((b.grid[gi], "QU", (ci, ui, mid * (1 - sp / 2), mid * (1 + sp / 2))))
+            else:
+                stream.append((b.grid[gi], "Q", (ci, mids[ci] * (1 - sp / 2), mids[ci] * (1 + sp / 2))))
     for ex in case.get("extras", []):
         gi, off_us, ci, price_mult, sp = ex
         gi = gi % len(b.grid)
@@ -169,7 +189,8 @@ def build(case, make_env=True):
         stream.append((b.grid[gi % len(b.grid)], "RATE", r))
     for i, (gi, off_us, val) in enumerate(case.get("pings", [])):
         stream.append((b.grid[gi % len(b.grid)] + off_us, "P", (i, val)))
-    b.stream = stream
+    b.base_stream = stream
+    b.stream = list(stream_override) if stream_override is not None else stream
     if make_env:
         b.env = make_env_from(b)
     return b
@@ -181,6 +202,9 @@ def events_from_stream(b):
         if kind == "Q":
             ci, bid, ask = payload
             events.append(EventNBBO(dt(t), b.contracts[ci], bid, ask))
+        elif kind == "QU":
+            ci, ui, bid, ask = payload
+            events.append(EventNBBO(dt(t), b.contracts[ci].contracts[ui], bid, ask))
         elif kind == "RATE":
             events.append(EventNBBO(dt(t), b.rate_contract, payload, payload))
         elif kind == "P":
@@ -213,10 +237,15 @@ def make_env_from(b):
     tr.add_events(events_from_stream(b))
     fixed, prop = case.get("fees", [0.0, 0.0])
     fees = BrokerFees(markup=case.get("markup", 0.0), interest_rate=b.rate_contract, proportional=prop, fixed=fixed)
+    if case.get("use_defaults"):
+        # the configuration a user gets by passing only what is required (state, reward, fees left to their defaults)
+        env = TradingEnv(action_space=make_space(b), transmitter=tr, initial_cash=case.get("deposit", 1000.0),
+                         latency=b.latency, steps_delay=case.get("delay", 0), episode_length=case.get("episode_length"))
+        return env
     env = TradingEnv(action_space=make_space(b), state=RecState(), reward=make_reward(case.get("reward", ["simple"])),
                      transmitter=tr, initial_cash=case.get("deposit", 1000.0), broker_fees=fees,
                      latency=b.latency, steps_delay=case.get("delay", 0),
-                     episode_length=case.get("episode_length"))
+                     episode_length=case.get("episode_length"), sampling_span=case.get("sampling_span"))
     return env
 
 
@@ -438,3 +467,49 @@ def episode_cases(draw, tier="quick", max_points=10, kinds=None, max_contracts=3
             "rates": rates, "pings": pings, "latency_us": lat, "delay": delay, "actions": actions, "reward": rew,
             "fees": fees, "markup": draw(st.sampled_from([0.0, 0.0, 0.005, 0.02])), "deposit": draw(st.sampled_from([1000.0, 100.0, 12345.0])),
             "space": ["box", -3.0, 3.0]}
+
+
+# ------------------------------------------------------------------------------------- futures chains
+
+CHAIN_SPANS = {
+    # class: (start, end, max gap in days between timesteps = shorter than the roll window)
+    "ES": ("2019-03", "2020-06", 3),
+    "NK": ("2019-03", "2020-06", 4),
+    "ZN": ("2019-03", "2020-06", 4),
+    "VX": ("2019-01", "2019-12", 1),
+}
+
+
+def chain_for(cls_name, month=0):
+    from tradingenv import contracts as C
+    start, end, _ = CHAIN_SPANS[cls_name]
+    return FutureChain(getattr(C, cls_name), start, end, month=month)
+
+
+@st.composite
+def chain_episode_cases(draw, tier="quick", classes=("ES", "NK", "ZN", "VX"), with_etf=True, max_points=9):
+    cls_name = draw(st.sampled_from(list(classes)))
+    month = draw(st.sampled_from([0, 0, 1]))
+    start, end, maxgap = CHAIN_SPANS[cls_name]
+    chain = chain_for(cls_name, month)
+    # start a few days before the last trading date of one of the first listed contracts
+    r = draw(st.integers(0, min(2, len(chain.contracts) - 2 - month)))
+    ltd = chain.contracts[r].last_trading_date
+    back = draw(st.integers(1, 6))
+    hour_us = draw(st.sampled_from([0, 0, 9 * 3600 * US + 1800 * US, 16 * 3600 * US]))
+    first = us_of(datetime(ltd.year, ltd.month, ltd.day)) - back * 86400 * US + hour_us
+    npts = draw(st.integers(4, max_points))
+    gaps = [first] + [draw(st.integers(1, maxgap)) * 86400 * US for _ in range(npts - 1)]
+    specs = [{"kind": "chain", "cls": cls_name, "start": start, "end": end, "month": month,
+              "p0": draw(st.sampled_from([100.0, 2500.0, 16.0])), "mult": 1.0, "margin": 0.1, "s0": 0.0}]
+    if with_etf and draw(st.booleans()):
+        specs.append({"kind": "etf", "mult": 1.0, "margin": 0.1, "p0": 50.0, "s0": 0.0})
+    n = len(specs)
+    sp = st.sampled_from([0.0, 0.001, 0.01])
+    bars = [[[draw(st.floats(0.97, 1.03)), draw(sp)] for _ in range(n)] for _ in range(npts)]
+    ws = draw(st.lists(st.sampled_from([0.5, -0.5, 1.0, -1.0, 0.25, 0.0, 1.5]), min_size=1, max_size=4))
+    actions = [[ws[k % len(ws)]] + [draw(st.sampled_from([0.0, 0.2, -0.2]))] * (n - 1) for k in range(npts - 1)]
+    return {"gaps": gaps, "contracts": specs, "bars": bars, "extras": [], "rates": [], "pings": [],
+            "latency_us": draw(st.sampled_from([0, 0, 60 * US])), "delay": draw(st.sampled_from([0, 0, 1])), "actions": actions,
+            "reward": ["simple"], "fees": [0.0, draw(st.sampled_from([0.0, 0.0005]))], "markup": 0.0, "deposit": 1e6,
+            "space": ["box", -3.0, 3.0], "threshold": draw(st.sampled_from([0.0, 0.0, 0.05, 0.5]))}
